@@ -216,6 +216,7 @@ func runHistory(f []string) string {
 	tickets := map[string]int{} // ticket bytes -> index of the connection that stored it
 	var conns []histConn
 	var toks []string
+	tampers := 0
 	for _, op := range strings.Split(f[4], ";") {
 		a := strings.Split(op, "/")
 		switch a[0] {
@@ -250,7 +251,10 @@ func runHistory(f []string) string {
 				case "ft":
 					t := gmtls.VerifClientSessionFields(cs).SessionTicket
 					if len(t) > 0 {
-						t[len(t)/2] ^= 0x20
+						// a different byte at every tampering of this history: flipping the same bit twice would
+						// restore the genuine ticket (found by the soak run, seed 2, case 1149)
+						t[(len(t)/2+tampers)%len(t)] ^= 0x20
+						tampers++
 					}
 					n = gmtls.VerifClientSessionForge(cs, 0, 0, t)
 				}
